@@ -74,6 +74,8 @@ type Lock struct {
 	Owner    *struct {
 		Name string `json:"name"`
 	} `json:"owner,omitempty"`
+	// Ref is the ref name the lock was created for (the "ref" member of the create request); not part of the JSON form.
+	Ref string `json:"-"`
 }
 
 // Server is the fake.  All exported fields may be set before/between requests under Lock()/Unlock().
@@ -97,6 +99,10 @@ type Server struct {
 	RequireActionHeader bool
 	// LockPageSize > 0 paginates lock lists.
 	LockPageSize int
+	// LocksByRef scopes locks by ref (default off = one lock table for all refs): a lock belongs to the ref named in
+	// its create request, conflicts only with a lock of the same path AND ref, and lock lists (refspec query) and
+	// locks/verify (ref member) report only the locks of the ref asked about (all locks when no ref is given).
+	LocksByRef bool
 	// NoLocks answers 404 on every lock endpoint (server without locking API).
 	NoLocks bool
 	// Verified records oids for which a verify callback was received.
@@ -408,19 +414,22 @@ func (s *Server) locks(w http.ResponseWriter, r *http.Request, body []byte, kind
 	case "lock-create":
 		var req struct {
 			Path string `json:"path"`
+			Ref  struct {
+				Name string `json:"name"`
+			} `json:"ref"`
 		}
 		if json.Unmarshal(body, &req) != nil || req.Path == "" {
 			apiError(w, 422, "bad lock request")
 			return
 		}
 		for _, l := range s.Locks {
-			if l.Path == req.Path {
+			if l.Path == req.Path && (!s.LocksByRef || l.Ref == req.Ref.Name) {
 				writeJSON(w, 409, map[string]interface{}{"lock": l, "message": "already created lock"})
 				return
 			}
 		}
 		s.nextLock++
-		l := &Lock{ID: fmt.Sprintf("L%03d", s.nextLock), Path: req.Path, LockedAt: "2024-01-01T12:00:00Z"}
+		l := &Lock{ID: fmt.Sprintf("L%03d", s.nextLock), Path: req.Path, LockedAt: "2024-01-01T12:00:00Z", Ref: req.Ref.Name}
 		l.Owner = &struct {
 			Name string `json:"name"`
 		}{user}
@@ -436,6 +445,9 @@ func (s *Server) locks(w http.ResponseWriter, r *http.Request, body []byte, kind
 			if id := q.Get("id"); id != "" && l.ID != id {
 				continue
 			}
+			if rs := q.Get("refspec"); s.LocksByRef && rs != "" && l.Ref != rs {
+				continue
+			}
 			all = append(all, l)
 		}
 		limit, _ := strconv.Atoi(q.Get("limit"))
@@ -449,9 +461,21 @@ func (s *Server) locks(w http.ResponseWriter, r *http.Request, body []byte, kind
 		var req struct {
 			Cursor string `json:"cursor"`
 			Limit  int    `json:"limit"`
+			Ref    struct {
+				Name string `json:"name"`
+			} `json:"ref"`
 		}
 		json.Unmarshal(body, &req)
-		out, next := page(s.Locks, req.Cursor, req.Limit)
+		scoped := s.Locks
+		if s.LocksByRef && req.Ref.Name != "" {
+			scoped = nil
+			for _, l := range s.Locks {
+				if l.Ref == req.Ref.Name {
+					scoped = append(scoped, l)
+				}
+			}
+		}
+		out, next := page(scoped, req.Cursor, req.Limit)
 		var ours, theirs []*Lock
 		for _, l := range out {
 			if l.Owner.Name == user {
